@@ -106,7 +106,7 @@ func HarnessC20Registry() {
 		var data map[string]any
 		throughTemplate := false
 		viaFile := false
-		switch vChoice("via", 6) {
+		switch vChoice("via", vParam("V")) { // V = how many of the six ways of calling are drawn from
 		case 5: // a file evaluated by path
 			data = map[string]any{"v": []any{"r", []any{1, "x"}, 5, 2.5, true}[t]}
 			viaFile = true
